@@ -6,7 +6,8 @@
 (* and per append call, so that "who is consulted after whom" is state.      *)
 (* What the sink is plays no part: an Append implementor, or a log::Log       *)
 (* implementor attached through the blanket adapter (src/append/mod.rs)       *)
-(* whose own enabled() answers no - the replay uses both.  An attachment is   *)
+(* whose own enabled() answers no, or a logger of this very library with an   *)
+(* appender of its own - the replay uses all three.  An attachment is          *)
 (* by name: how many appenders are declared and where the attached ones were  *)
 (* declared plays no part either (the replay declares up to 70 001).          *)
 (***************************************************************************)
